@@ -11,6 +11,11 @@
   `decode_host_order`, `reconstruct_host_order`
                          an accepted header in the opposite byte order still makes decode
                          (without forced checks) and reconstruct fail with EBADHEADER;
+  `decode_host_order'`   the same without the count hypothesis (EINSUFFFRAGS or EBADHEADER);
+  `decode_host_order_forced`, `decode_host_order_forced_cases`
+                         with forced checks such fragments are dropped silently: the result is the
+                         forced decode of the host-order fragments alone (EINSUFFFRAGS when fewer
+                         than k of them remain), never a report about the foreign fragment;
   `fresh_accepted`       every header written by encode is accepted;
   `crc_table`            the table compiled into the C source (LecGen.CrcTable, regenerated on
                          every run) is the table of polynomial 0xEDB88320, so the table-driven
@@ -21,6 +26,7 @@
 import LecProofs.EncodeLemmas
 import LecProofs.ParseLemmas
 import LecProofs.CrcLemmas
+import LecProofs.FrontendCorrect
 import LecGen
 namespace LecProps.C09
 open Lec
@@ -164,6 +170,189 @@ theorem reconstruct_host_order (env : Env) (be : Backend) (i : Inst) (frags : Li
         rw [partition_nonnative i.k i.m frags h]
         exact ⟨_, rfl, Or.inl rfl⟩
 
+/-! ### host byte order: decode
+
+  Which step of `decode` produces which code when a fragment with a non-host magic is present:
+  * the scan loop of the fast path (`fragmentsToString` / `f2sStep`) visits *every* supplied
+    fragment before looking at the slots, and `get_fragment_idx` answers -1 for a non-host magic, so
+    the fast path can never succeed on such a list: it fails with `-EBADHEADER` (or with `-1` when
+    it is skipped for backends 5 and 8, or when fewer than `k` fragments are supplied);
+  * `decode` discards the code of a failed fast path and always falls through to the slow path;
+  * the placement loop of `getFragmentPartition` again sees index -1 and fails with `-EBADHEADER`
+    (`partition_nonnative`), which `decode` returns unchanged.
+  Hence the only codes are `-EINSUFFFRAGS` (fewer than `k` fragments, checked first) and
+  `-EBADHEADER`; neither the position of the foreign fragment nor duplicates matter, and the
+  declared fragment length is irrelevant (a length below 80 is answered with `-EBADHEADER` too). -/
+
+theorem f2s_foldl_error (k : Nat) (frags : List Bytes) (e : Int) :
+    frags.foldl (f2sStep k) (.error e) = .error e := by
+  induction frags with
+  | nil => rfl
+  | cons x xs ih => simpa [List.foldl, f2sStep] using ih
+
+/-- every failure of one scan step is `-EBADHEADER`. -/
+theorem f2sStep_error (k : Nat) (st : Int × List (Option Bytes)) (x : Bytes) (e : Int)
+    (h : f2sStep k (.ok st) x = .error e) : e = -EBADHEADER := by
+  obtain ⟨orig, slots⟩ := st
+  unfold f2sStep at h
+  simp only at h
+  split at h
+  · cases h; rfl
+  · split at h
+    · cases h; rfl
+    · split at h
+      · cases h
+      · split at h <;> cases h
+
+/-- the scan loop of the fast path fails with EBADHEADER as soon as one supplied fragment (anywhere
+    in the list) does not carry the host-order magic. -/
+theorem f2s_foldl_nonnative (k : Nat) (frags : List Bytes) (h : ∃ f ∈ frags, fMagic f ≠ magicC)
+    (st : Int × List (Option Bytes)) :
+    frags.foldl (f2sStep k) (.ok st) = .error (-EBADHEADER) := by
+  induction frags generalizing st with
+  | nil => obtain ⟨f, hf, _⟩ := h; cases hf
+  | cons x xs ih =>
+    obtain ⟨f, hf, hm⟩ := h
+    simp only [List.foldl]
+    by_cases hx : fMagic x = magicC
+    · have hf' : f ∈ xs := by
+        rcases List.mem_cons.mp hf with rfl | h'
+        · exact absurd hx hm
+        · exact h'
+      cases hstep : f2sStep k (.ok st) x with
+      | ok st' => exact ih ⟨f, hf', hm⟩ st'
+      | error e =>
+        rw [f2sStep_error k st x e hstep]; exact f2s_foldl_error k xs _
+    · have hi : getFragmentIdx x = -1 := by simp [getFragmentIdx, hx]
+      have : f2sStep k (.ok st) x = .error (-EBADHEADER) := by
+        obtain ⟨orig, slots⟩ := st
+        simp [f2sStep, hi]
+      rw [this]
+      exact f2s_foldl_error k xs _
+
+/-- the fast path never succeeds on a list containing a non-host-order fragment: it answers
+    `-EBADHEADER`, or `-1` when fewer than `k` fragments were supplied. -/
+theorem fragmentsToString_nonnative (k : Nat) (frags : List Bytes)
+    (h : ∃ f ∈ frags, fMagic f ≠ magicC) :
+    fragmentsToString k frags = .error (if frags.length < k then -1 else -EBADHEADER) := by
+  unfold fragmentsToString
+  by_cases hk : frags.length < k
+  · simp only [hk, if_true]
+  · simp only [hk, if_false]
+    rw [f2s_foldl_nonnative k frags h]
+
+/-- the part of decode after the argument checks answers EBADHEADER whenever a non-host-order
+    fragment takes part (whatever the fast path answered, the partition step fails). -/
+theorem decodeTail_nonnative (env : Env) (be : Backend) (i : Inst) (frags : List Bytes) (fragLen : Nat)
+    (h : ∃ f ∈ frags, fMagic f ≠ magicC) :
+    decodeTail env be i frags fragLen = .error (.rc (-EBADHEADER)) := by
+  have hslow : decodeSlow env be i frags fragLen = .error (.rc (-EBADHEADER)) := by
+    unfold decodeSlow
+    rw [partition_nonnative i.k i.m frags h]
+  unfold decodeTail
+  rw [fragmentsToString_nonnative i.k frags h]
+  split
+  · next out heq => split at heq <;> cases heq
+  · exact hslow
+
+/-- **decode, no forced checks, any arguments**: a supplied fragment whose magic is not the
+    host-order magic (in particular an opposite-byte-order fragment that `isInvalidHeader`
+    accepts) makes decode fail; the code is EINSUFFFRAGS when fewer than `k` fragments were
+    supplied (that check comes first) and EBADHEADER otherwise.  No assumption on the declared
+    fragment length, on where the foreign fragment sits, or on the other fragments. -/
+theorem decode_host_order' (env : Env) (be : Backend) (i : Inst) (frags : List Bytes) (fragLen : Nat)
+    (h : ∃ f ∈ frags, fMagic f ≠ magicC) :
+    decode env be i frags fragLen false =
+      .error (.rc (if frags.length < i.k then -EINSUFFFRAGS else -EBADHEADER)) := by
+  rw [decode_unfold]
+  by_cases h1 : frags.length < i.k
+  · simp only [h1, if_true, failRc]
+  · simp only [h1, if_false, failRc]
+    by_cases h2 : fragLen < Hdr.size
+    · simp only [h2, if_true]
+    · simp only [h2, if_false]
+      by_cases h3 : frags.any isInvalidHeader = true
+      · simp only [h3, if_true]
+      · simp only [h3, Bool.false_and, Bool.false_eq_true, if_false]
+        exact decodeTail_nonnative env be i frags fragLen h
+
+/-- **decode, no forced checks**: with at least `k` fragments supplied, one fragment that is not in
+    host byte order makes decode fail with exactly EBADHEADER (the hypothesis `80 ≤ fragLen` of
+    `decode_gate` is not needed here: a shorter declared length is answered with EBADHEADER too). -/
+theorem decode_host_order (env : Env) (be : Backend) (i : Inst) (frags : List Bytes) (fragLen : Nat)
+    (hn : i.k ≤ frags.length) (h : ∃ f ∈ frags, fMagic f ≠ magicC) :
+    decode env be i frags fragLen false = .error (.rc (-EBADHEADER)) := by
+  rw [decode_host_order' env be i frags fragLen h, if_neg (by omega)]
+
+/-- forced validation rejects every fragment that is not in host byte order
+    (`get_libec_version` fails on it before anything else is looked at). -/
+theorem isInvalidFragment_nonnative (env : Env) (be : Backend) (i : Inst) (f : Bytes)
+    (h : fMagic f ≠ magicC) : isInvalidFragment env be i f = true := by
+  simp [isInvalidFragment, h]
+
+/-- the fragments that validate are the same whether or not the non-host-order ones are removed
+    first. -/
+theorem filter_valid_native (env : Env) (be : Backend) (i : Inst) (frags : List Bytes) :
+    (frags.filter (fun f => fMagic f == magicC)).filter (fun f => !isInvalidFragment env be i f) =
+      frags.filter (fun f => !isInvalidFragment env be i f) := by
+  rw [List.filter_filter]
+  apply List.filter_congr
+  intro f _
+  by_cases hm : fMagic f = magicC
+  · simp [hm]
+  · simp [isInvalidFragment_nonnative env be i f hm]
+
+/-- **decode with forced checks**: fragments that are not in host byte order are dropped silently
+    instead of being reported — a forced decode (with acceptable headers, at least `k` fragments
+    and a declared length of at least a header) is the forced decode of the host-order fragments
+    alone, and EINSUFFFRAGS when fewer than `k` of those remain.  So EBADHEADER is *not* the answer
+    here: the same opposite-order fragment that makes an unforced decode fail is ignored by a forced
+    one.  (`hl` and `hh` cannot be dropped: without them the left side is EBADHEADER while the right
+    side may be EINSUFFFRAGS or a decode of a list from which the offending header was removed.) -/
+theorem decode_host_order_forced (env : Env) (be : Backend) (i : Inst) (frags : List Bytes) (fragLen : Nat)
+    (hn : i.k ≤ frags.length) (hl : 80 ≤ fragLen) (hh : frags.any isInvalidHeader = false) :
+    decode env be i frags fragLen true =
+      (if (frags.filter (fun f => fMagic f == magicC)).length < i.k
+       then .error (.rc (-EINSUFFFRAGS))
+       else decode env be i (frags.filter (fun f => fMagic f == magicC)) fragLen true) := by
+  have hh' : (frags.filter (fun f => fMagic f == magicC)).any isInvalidHeader = false := by
+    cases hc : (frags.filter (fun f => fMagic f == magicC)).any isInvalidHeader with
+    | false => rfl
+    | true =>
+      obtain ⟨g, hg, hi⟩ := List.any_eq_true.mp hc
+      have : frags.any isInvalidHeader = true :=
+        List.any_eq_true.mpr ⟨g, (List.mem_filter.mp hg).1, hi⟩
+      rw [hh] at this; cases this
+  rw [decode_forced_filter env be i frags fragLen hn hl hh]
+  by_cases hk : (frags.filter (fun f => fMagic f == magicC)).length < i.k
+  · rw [if_pos hk, if_pos]
+    have := List.length_filter_le (fun f => !isInvalidFragment env be i f)
+      (frags.filter (fun f => fMagic f == magicC))
+    rw [filter_valid_native] at this
+    omega
+  · rw [if_neg hk, decode_forced_filter env be i _ fragLen (by omega) hl hh', filter_valid_native]
+
+/-- a forced decode never reports a non-host-order fragment: its outcome is EINSUFFFRAGS or the
+    outcome of an unforced decode of fragments that are all in host byte order. -/
+theorem decode_host_order_forced_cases (env : Env) (be : Backend) (i : Inst) (frags : List Bytes)
+    (fragLen : Nat) (hn : i.k ≤ frags.length) (hl : 80 ≤ fragLen)
+    (hh : frags.any isInvalidHeader = false) :
+    decode env be i frags fragLen true = .error (.rc (-EINSUFFFRAGS)) ∨
+    ∃ frags', (∀ f ∈ frags', f ∈ frags ∧ fMagic f = magicC) ∧ i.k ≤ frags'.length ∧
+      decode env be i frags fragLen true = decode env be i frags' fragLen false := by
+  rw [decode_forced_filter env be i frags fragLen hn hl hh]
+  by_cases hk : (frags.filter (fun f => !isInvalidFragment env be i f)).length < i.k
+  · left; rw [if_pos hk]
+  · right
+    refine ⟨frags.filter (fun f => !isInvalidFragment env be i f), ?_, by omega, by rw [if_neg hk]⟩
+    intro f hf
+    obtain ⟨hf1, hf2⟩ := List.mem_filter.mp hf
+    refine ⟨hf1, ?_⟩
+    apply Classical.byContradiction
+    intro hm
+    rw [isInvalidFragment_nonnative env be i f hm] at hf2
+    cases hf2
+
 /-! ### fresh headers -/
 
 theorem specHeader_WF (env : Env) (i : Inst) (idx orig bs : Nat) (p : Bytes)
@@ -225,11 +414,39 @@ example :
     isInvalidHeader f = false ∧ isInvalidHeader (f.set 0 0) = true := by
   decide +kernel
 
+/-- result tests for the examples (`R Bytes` has no decidable equality). -/
+def isOk (r : R Bytes) (d : Bytes) : Bool := match r with | .ok o => o == d | .error _ => false
+def isRc (r : R Bytes) (c : Int) : Bool := match r with | .error (.rc e) => e == c | _ => false
+
+/-- non-vacuity of the host-order theorems: `g` is the fresh fragment `f` (k = 1, index 0, data
+    `[1,2,3,4]`) with magic, library version and metadata CRC stored in the opposite byte order.
+    Its header is *accepted* (so `decode_gate` says nothing about it) but its magic is not the
+    host-order one.  Alone `f` decodes by the fast path; with `g` next to it — before or after —
+    an unforced decode answers EBADHEADER (`decode_host_order`), a forced decode drops `g` and
+    succeeds, and with only foreign fragments a forced decode answers EINSUFFFRAGS
+    (`decode_host_order_forced`). -/
+example :
+    let i : Inst := { beId := 6, beVer := 0x010000, k := 1, m := 1, w := 32, ct := 2 }
+    let env : Env := { libver := 0x010604, legacy := false }
+    let f := (specHeader env i 0 4 4 [1, 2, 3, 4]).bytes ++ [1, 2, 3, 4]
+    let g := setMetaCrc (setLibver (setMagic f (bswap32 magicC)) (bswap32 (fLibver f))) (bswap32 (fMetaCrc f))
+    isInvalidHeader g = false ∧ fMagic g ≠ magicC ∧
+    isOk (decode env nullBackend i [f] 84 false) [1, 2, 3, 4] ∧
+    isRc (decode env nullBackend i [f, g] 84 false) (-EBADHEADER) ∧
+    isRc (decode env nullBackend i [g, f] 84 false) (-EBADHEADER) ∧
+    isOk (decode env nullBackend i [f, g] 84 true) [1, 2, 3, 4] ∧
+    isRc (decode env nullBackend i [g, g] 84 true) (-EINSUFFFRAGS) := by
+  decide +kernel
+
 #print axioms accept_iff
 #print axioms metadata_gate
 #print axioms decode_gate
 #print axioms reconstruct_gate
 #print axioms reconstruct_host_order
+#print axioms decode_host_order'
+#print axioms decode_host_order
+#print axioms decode_host_order_forced
+#print axioms decode_host_order_forced_cases
 #print axioms fresh_accepted
 #print axioms crc_table
 end LecProps.C09
